@@ -39,7 +39,12 @@ SPEC = {
              "configuration, methods xor/aes/best), histories of 2-12 steps (list assignment by maps / Config objects / "
              "append, secret assignment incl. '' and None, key-file assignment or clearing at any configuration incl. items, "
              "intermediate dumps in random formats), random pre-existing key files, final format random. non-trivial = at "
-             "least one non-empty secret at the final dump; distinct = distinct (schema, history, files, format)"),
+             "least one non-empty secret at the final dump; distinct = distinct (schema, history, files, format). "
+             "Secrets inside containers: every configuration (root, nested, list item, config type) may also declare "
+             "ListField(SecureField(m)) and DictField(StringField(), SecureField(m)); two matrix shapes (containers at the "
+             "root + nested; containers inside items of ListField(schema) / ListField(config type) and below an item's "
+             "sub-configuration) and ~30%/20% of random configurations; histories assign lists of 0-3 and maps of 0-3 "
+             "plaintexts incl. ''"),
     "trusted_base": [KERNEL, "Print Assumptions: closed under the global context (no axioms)", TIE, HARNESS,
                      "modelled, not verified: cipher / base64 / utf-8 as abstract functions with dec(enc p) = p and "
                      "unb64(b64 x) = x as hypotheses; os.urandom named by its consumer (key-file path, secret); the file "
@@ -48,7 +53,14 @@ SPEC = {
                      "the order in which a document's keys are processed is not modelled (file sets, not sequences, are "
                      "compared); a load that raises is observed as 'broken' and its opened files are checked by the direct "
                      "oracle only"],
-    "assumptions": ["field names of one configuration are distinct and every item of a list was built from the list's item "
+    "assumptions": ["a ListField(SecureField) / DictField(StringField, SecureField) of a configuration is given to the model "
+                    "as 3 extra secrets of that configuration named f[0..2] / f[a|b|c] (same key file, same method, one "
+                    "key-file context per non-empty item, empty item = null): Secrets.v has no separate container construct, "
+                    "the harness flattens the rendered list / map into those slots before the comparison, so the theorems "
+                    "apply to items through this reading; the nesting of the items in the document, that every item is a "
+                    "{method, ciphertext} map with a concrete method, plaintext absence in the output bytes, key files "
+                    "touched = expected and the new-session round trip are checked on the implementation by the direct oracle",
+                    "field names of one configuration are distinct and every item of a list was built from the list's item "
                     "field (hypothesis wf; true of every Python dict / ListProxy)",
                     "round trip excludes known_F34 (open finding): a configuration other than the root names its own key "
                     "file by assignment, or a config-type instance's class-level key file was cleared or changed",
